@@ -442,5 +442,108 @@ theorem run_length (h : HFile) (il : Nat) (ops : List HOp) : ∀ st, (run h il s
   | nil => intro st; rfl
   | cons op rest ih => intro st; simp only [run, List.length_cons, ih]
 
+
+/-! ### bounds and I/O of header reads -/
+
+/-- headers of an unstructured 3D file: ordinal `t` exists iff `t` is below the number of populated slots -/
+theorem headerCanon_unstructured (h : HFile) (il t : Nat) (h3 : h.is3d = true) (hs : h.structured = false)
+    (hsto : hasStored h = true) :
+    headerCanon h il t =
+      (match (positions h il)[t]? with
+       | some pos => .ok (headerAt h pos)
+       | none => .error .index) := by
+  unfold headerCanon slotOf
+  simp only [h3, hs, Bool.not_false, Bool.and_true, Bool.true_and, if_true, hsto]
+  cases hp : (positions h il)[t]? with
+  | some pos =>
+    have := positions_lt h il t pos hp
+    have hlen : t < (positions h il).length := by
+      rcases List.getElem?_eq_some_iff.mp hp with ⟨hl, _⟩; exact hl
+    have hle : (positions h il).length ≤ h.grid := by
+      unfold positions
+      exact Nat.le_trans (List.length_filter_le _ _) (by simp)
+    have : t < h.grid := Nat.lt_of_lt_of_le hlen hle
+    simp [this]
+  | none =>
+    by_cases hg : t < h.grid <;> simp [hg]
+
+/-- headers where the array position is the ordinal (structured 3D, 2D): ordinal `t` exists iff `t < grid` -/
+theorem headerCanon_direct (h : HFile) (il t : Nat) (hd : (h.is3d && !h.structured) = false) (hsto : hasStored h = true) :
+    headerCanon h il t = (if t < h.grid then .ok (headerAt h t) else .error .index) := by
+  unfold headerCanon slotOf
+  simp only [hd, Bool.false_eq_true, if_false, hsto]
+  by_cases hg : t < h.grid
+  · simp [hg]
+  · cases h.is3d <;> simp [hg]
+
+/-- the array indices read by a structured header look-up: each stored array once -/
+def distinctArrays (h : HFile) : List Nat :=
+  ((List.range h.tbl.length).filterMap (arrayOf h)).foldl (fun acc k => if acc.contains k then acc else acc ++ [k]) []
+
+theorem dedup_fold_spec (ks : List Nat) : ∀ (acc : List Nat), acc.Nodup →
+    (ks.foldl (fun acc k => if acc.contains k then acc else acc ++ [k]) acc).Nodup
+    ∧ ∀ x, x ∈ ks.foldl (fun acc k => if acc.contains k then acc else acc ++ [k]) acc ↔ (x ∈ acc ∨ x ∈ ks) := by
+  induction ks with
+  | nil => intro acc hacc; exact ⟨hacc, by simp⟩
+  | cons k ks ih =>
+    intro acc hacc
+    simp only [List.foldl_cons]
+    by_cases hc : acc.contains k = true
+    · simp only [hc, if_true]
+      obtain ⟨a, b⟩ := ih acc hacc
+      refine ⟨a, fun x => ?_⟩
+      rw [b x]
+      have hk : k ∈ acc := by simpa using hc
+      constructor
+      · rintro (hx | hx)
+        · exact .inl hx
+        · exact .inr (List.mem_cons_of_mem _ hx)
+      · rintro (hx | hx)
+        · exact .inl hx
+        · rcases List.mem_cons.mp hx with rfl | hx
+          · exact .inl hk
+          · exact .inr hx
+    · simp only [hc, Bool.false_eq_true, if_false]
+      have hk : k ∉ acc := by simpa using hc
+      have hnd : (acc ++ [k]).Nodup := by
+        rw [List.nodup_append]
+        refine ⟨hacc, List.nodup_cons.mpr ⟨List.not_mem_nil, List.nodup_nil⟩, ?_⟩
+        intro a ha b hb
+        simp only [List.mem_singleton] at hb
+        subst hb
+        intro hab; subst hab; exact hk ha
+      obtain ⟨a, b⟩ := ih (acc ++ [k]) hnd
+      refine ⟨a, fun x => ?_⟩
+      rw [b x]
+      simp only [List.mem_append, List.mem_cons, List.not_mem_nil, or_false]
+      constructor
+      · rintro ((hx | hx) | hx)
+        · exact .inl hx
+        · exact .inr (.inl hx)
+        · exact .inr (.inr hx)
+      · rintro (hx | hx | hx)
+        · exact .inl (.inl hx)
+        · exact .inl (.inr hx)
+        · exact .inr hx
+
+/-- a header look-up on a structured file reads exactly four bytes of every stored array, each array once, and keeps
+nothing -/
+theorem structured_header_io (h : HFile) (il : Nat) (st : HSt) (t : Nat) (hs : h.structured = true) (h3 : h.is3d = true)
+    (ht : t < h.grid) :
+    (genTraceHeader h il st t false).1 = st ∧
+    ∃ o, (genTraceHeader h il st t false).2 = .ok o
+      ∧ o.fetches = (distinctArrays h).map (fun k => (offsetOf h k + 4 * t, 4))
+      ∧ (distinctArrays h).Nodup
+      ∧ ∀ k, k ∈ distinctArrays h ↔ ∃ f, f < h.tbl.length ∧ arrayOf h f = some k := by
+  unfold genTraceHeader
+  simp only [h3, ht, decide_true, Bool.not_true, Bool.and_false, Bool.false_eq_true, if_false, hs, Bool.not_false,
+    Bool.and_true, if_true]
+  refine ⟨trivial, _, rfl, rfl, ?_, ?_⟩
+  · exact (dedup_fold_spec _ [] List.nodup_nil).1
+  · intro k
+    unfold distinctArrays
+    rw [(dedup_fold_spec _ [] List.nodup_nil).2 k]
+    simp only [List.not_mem_nil, false_or, List.mem_filterMap, List.mem_range]
+
 end HeaderReads
 end Sgz
